@@ -1,0 +1,83 @@
+//go:build verif
+
+// Package vhook provides named instrumentation points for the verification
+// harness. With the `verif` build tag the harness can count the points that
+// were reached and arm a process kill at the n-th hit of one of them.
+package vhook
+
+import (
+	"os"
+	"sync"
+	"syscall"
+)
+
+var (
+	mtx      sync.Mutex
+	hits     = map[string]int{}
+	order    []string
+	armed    string
+	armedNth int
+	onHit    func(string)
+)
+
+// Arm makes the process SIGKILL itself when point `name` is hit for the nth
+// time (counted from the moment of arming). An empty name disarms.
+func Arm(name string, nth int) {
+	mtx.Lock()
+	defer mtx.Unlock()
+	armed = name
+	armedNth = nth
+}
+
+// SetObserver installs a callback invoked (outside the package lock) on every hit.
+func SetObserver(fn func(string)) {
+	mtx.Lock()
+	defer mtx.Unlock()
+	onHit = fn
+}
+
+// Hits returns a copy of the hit counters and the order of first occurrence.
+func Hits() (map[string]int, []string) {
+	mtx.Lock()
+	defer mtx.Unlock()
+	m := make(map[string]int, len(hits))
+	for k, v := range hits {
+		m[k] = v
+	}
+	return m, append([]string(nil), order...)
+}
+
+// ResetHits clears the hit counters.
+func ResetHits() {
+	mtx.Lock()
+	defer mtx.Unlock()
+	hits = map[string]int{}
+	order = nil
+}
+
+// At marks a named point in block processing.
+func At(name string) {
+	mtx.Lock()
+	if _, ok := hits[name]; !ok {
+		order = append(order, name)
+	}
+	hits[name]++
+	kill := false
+	if armed != "" && armed == name {
+		armedNth--
+		if armedNth <= 0 {
+			kill = true
+		}
+	}
+	fn := onHit
+	mtx.Unlock()
+
+	if kill {
+		// a real process death: no deferred functions, no flush.
+		_ = syscall.Kill(os.Getpid(), syscall.SIGKILL)
+		select {}
+	}
+	if fn != nil {
+		fn(name)
+	}
+}
